@@ -1,0 +1,164 @@
+/*
+ * Read-only verification hooks. The whole module is compiled only with
+ * `RUSTFLAGS="--cfg grex_verif"`; nothing here changes a value the pipeline uses.
+ */
+
+use crate::cluster::GraphemeCluster;
+use crate::config::RegExpConfig;
+use crate::expression::Expression;
+use crate::grapheme::Grapheme;
+use crate::quantifier::Quantifier;
+use crate::RegExpBuilder;
+use std::cell::RefCell;
+
+thread_local! {
+    static TRACE: RefCell<Option<Vec<(&'static str, String)>>> = const { RefCell::new(None) };
+}
+
+/// Starts recording stage snapshots on the current thread.
+pub fn start_trace() {
+    TRACE.with(|t| *t.borrow_mut() = Some(vec![]));
+}
+
+/// Stops recording and returns the snapshots recorded since `start_trace`.
+pub fn take_trace() -> Vec<(&'static str, String)> {
+    TRACE.with(|t| t.borrow_mut().take().unwrap_or_default())
+}
+
+pub(crate) fn record<F: FnOnce() -> String>(stage: &'static str, f: F) {
+    TRACE.with(|t| {
+        if let Some(trace) = t.borrow_mut().as_mut() {
+            trace.push((stage, f()));
+        }
+    });
+}
+
+pub(crate) fn ser_str(s: &str) -> String {
+    let mut out = String::from("[");
+    for (i, c) in s.chars().enumerate() {
+        if i > 0 {
+            out.push(',');
+        }
+        out.push_str(&(c as u32).to_string());
+    }
+    out.push(']');
+    out
+}
+
+pub(crate) fn ser_strs(v: &[String]) -> String {
+    v.iter().map(|s| ser_str(s)).collect::<Vec<_>>().join(";")
+}
+
+pub(crate) fn ser_grapheme(g: &Grapheme, config: &RegExpConfig) -> String {
+    let flags_ok = g.verif_flags()
+        == (
+            config.is_capturing_group_enabled,
+            config.is_output_colorized,
+            config.is_verbose_mode_enabled,
+        );
+    format!(
+        "G({}|{}|{}|{}){}",
+        ser_strs(g.chars()),
+        g.repetitions
+            .iter()
+            .map(|r| ser_grapheme(r, config))
+            .collect::<Vec<_>>()
+            .join(""),
+        g.minimum(),
+        g.maximum(),
+        if flags_ok { "" } else { "!FLAGS" }
+    )
+}
+
+pub(crate) fn ser_graphemes(gs: &[Grapheme], config: &RegExpConfig) -> String {
+    format!(
+        "{{{}}}",
+        gs.iter()
+            .map(|g| ser_grapheme(g, config))
+            .collect::<Vec<_>>()
+            .join("")
+    )
+}
+
+pub(crate) fn ser_clusters(cs: &[GraphemeCluster], config: &RegExpConfig) -> String {
+    cs.iter()
+        .map(|c| ser_graphemes(c.graphemes(), config))
+        .collect::<Vec<_>>()
+        .join(" ")
+}
+
+pub(crate) fn ser_expr(e: &Expression, config: &RegExpConfig) -> String {
+    match e {
+        Expression::Alternation(options, _, _, _) => format!(
+            "Alt({})",
+            options
+                .iter()
+                .map(|o| ser_expr(o, config))
+                .collect::<Vec<_>>()
+                .join(",")
+        ),
+        Expression::CharacterClass(set, _) => format!(
+            "CC({})",
+            set.iter()
+                .map(|c| (*c as u32).to_string())
+                .collect::<Vec<_>>()
+                .join(",")
+        ),
+        Expression::Concatenation(a, b, _, _, _) => {
+            format!("Cat({},{})", ser_expr(a, config), ser_expr(b, config))
+        }
+        Expression::Literal(cluster, _, _) => {
+            format!("Lit{}", ser_graphemes(cluster.graphemes(), config))
+        }
+        Expression::Repetition(inner, q, _, _, _) => format!(
+            "Rep({},{})",
+            ser_expr(inner, config),
+            match q {
+                Quantifier::KleeneStar => "*",
+                Quantifier::QuestionMark => "?",
+            }
+        ),
+    }
+}
+
+/// (is_digit, is_word, is_space) as the compiled lookup functions of cluster.rs see `c`.
+pub fn classify(c: char) -> (bool, bool, bool) {
+    crate::cluster::verif_classify(c)
+}
+
+/// grex's own grapheme count of a test case under the builder's settings
+/// (the sort key of the last-resort alternation).
+pub fn cluster_count(builder: &RegExpBuilder, s: &str) -> usize {
+    GraphemeCluster::from(s, &builder.config).size()
+}
+
+/// The builder's accumulated settings and test cases, as text.
+pub fn builder_state(builder: &RegExpBuilder) -> String {
+    let c = &builder.config;
+    format!(
+        "mr={} ms={} d={} D={} s={} S={} w={} W={} rep={} ci={} cap={} esc={} sur={} verbose={} nostart={} noend={} colour={} tcs={}",
+        c.minimum_repetitions,
+        c.minimum_substring_length,
+        c.is_digit_converted,
+        c.is_non_digit_converted,
+        c.is_space_converted,
+        c.is_non_space_converted,
+        c.is_word_converted,
+        c.is_non_word_converted,
+        c.is_repetition_converted,
+        c.is_case_insensitive_matching,
+        c.is_capturing_group_enabled,
+        c.is_non_ascii_char_escaped,
+        c.is_astral_code_point_converted_to_surrogate,
+        c.is_verbose_mode_enabled,
+        c.is_start_anchor_disabled,
+        c.is_end_anchor_disabled,
+        c.is_output_colorized,
+        ser_strs(&builder.test_cases)
+    )
+}
+
+/// Sets the colour flag without the `cli` feature.
+pub fn set_colour(builder: &mut RegExpBuilder) {
+    builder.config.is_output_colorized = true;
+}
